@@ -44,6 +44,13 @@ def run_job(job):
         res["status"] = "error"
         res["reason"] = "goto-cc failed: " + (se + so)[-3000:]
         return res
+    if job.get("add_library", True):
+        cmdl = ["goto-instrument", "--add-library", base + ".a.gb", base + ".a.gb"]
+        rc, so, se, dt = run(cmdl, 120)
+        if rc != 0:
+            res["status"] = "error"
+            res["reason"] = "goto-instrument --add-library failed: " + (se + so)[-2000:]
+            return res
     cmd2 = ["goto-instrument", "--dfcc", h]
     if job["enforce"]:
         cmd2 += ["--enforce-contract-rec" if job.get("rec") else "--enforce-contract", job["enforce"]]
